@@ -91,6 +91,18 @@ Qed.
 Lemma pub_offs_unsub_out : forall k, pub_offs [unsub_out_frame k] = [].
 Proof. destruct k; reflexivity. Qed.
 
+Ltac sce :=
+  try assumption; intros;
+  repeat match goal with
+   | H : In _ (_ ++ _) |- _ => apply in_app_or in H; destruct H
+   | H : In _ [_] |- _ => destruct H as [H|[]]
+   | H : In _ [] |- _ => destruct H
+   | H : Sub _ _ = Sub _ _ |- _ => inversion H; subst; clear H
+   | H : UOut _ = UOut _ |- _ => inversion H; subst; clear H
+   end;
+  subst;
+  try discriminate; try congruence; eauto 3.
+
 Ltac nb H Hnb Hcw :=
   unfold step, emit_push in H; rewrite ?Hnb in H; rewrite ?Hcw in H; cbn [app emits] in H; cbv iota in H.
 
@@ -109,7 +121,7 @@ Proof.
     constructor; unf; unfold with_log;
     cbn [b_ep b_top b_items b_fresh g_log fl ps_entry ps_insub ps_locked ps_buf hub ch closed pc dl up pending cleanup g_pos log cw
          finished in_flight sub_committed quiet] in * end.
-  all: try (sc; fail).
+  all: try (sce; fail).
   all: try (intros; exfalso; congruence).
   (* pending / cleanup facts *)
   all: try (intros Hp; exfalso; specialize (Epend Hp); discriminate).
